@@ -724,6 +724,7 @@ func c04AllocAndLoops(p *core.Program, r *core.Report) {
 			return true
 		})
 		nAlloc := 0
+		allocSeen := map[string]int{}
 		ast.Inspect(fi.Decl.Body, func(n ast.Node) bool {
 			call, ok := n.(*ast.CallExpr)
 			if !ok {
@@ -747,14 +748,23 @@ func c04AllocAndLoops(p *core.Program, r *core.Report) {
 					continue
 				}
 				nAlloc++
-				c := fmt.Sprintf("%s %s sized by %s", fname, what, stripSpaces(types.ExprString(a)))
+				// identified by function and allocated type (a second allocation of the same type in the
+				// same function gets an ordinal), not by how the count variable is spelled
+				base := fmt.Sprintf("%s %s", fname, what)
+				allocSeen[base]++
+				c := base
+				if allocSeen[base] > 1 {
+					c = fmt.Sprintf("%s #%d", base, allocSeen[base])
+				}
+				detailCount := stripSpaces(types.ExprString(a))
+				_ = detailCount
 				if fname == "io.(*DataInputX).ReadBytes" {
 					continue
 				}
 				if guardedBefore(fi, a, call.Pos()) {
 					r.OK("C04.alloc", c, p.Pos(call.Pos()), "count from "+src+" is bounded by a rejecting check first")
 				} else {
-					r.Viol("C04.alloc", c, p.Pos(call.Pos()), "allocation proportional to a count decoded from the input ("+src+") with no bound check: a few corrupted bytes allocate gigabytes before any element is read")
+					r.Viol("C04.alloc", c, p.Pos(call.Pos()), "allocation sized by "+detailCount+", a count decoded from the input ("+src+") with no bound check: a few corrupted bytes allocate gigabytes before any element is read")
 				}
 			}
 			return true
